@@ -293,7 +293,7 @@ func runC15(r *vhlib.Run) {
 		valid := assemble(chunks, idxOpts{}, "XF\x00", meta.FinalStream)
 		c15Check(r, m, valid, "valid")
 		clone := func() []xchunk { return append([]xchunk{}, chunks...) }
-		for t := 0; t < 31; t++ {
+		for t := 0; t < 34; t++ {
 			cs := clone()
 			io_ := idxOpts{}
 			magic, fmode := "XF\x00", meta.FinalStream
@@ -423,6 +423,32 @@ func runC15(r *vhlib.Run) {
 					magic = "XF\x00"
 					fmode = []meta.FinalMode{meta.FinalNil, meta.FinalMeta}[rng.Intn(2)]
 				}
+			case 31, 32: // index honest in its sizes, one byte INSIDE a chunk changed: block headers, the header
+				// byte of the sync-marker block (its final bit, its type), a length field, any byte
+				kind = "chunk-byte-tampered"
+				j := rng.Intn(len(cs))
+				lvl := 6
+				if t == 32 {
+					lvl = 0 // stored layout: header, LEN, NLEN, data, marker block
+				}
+				d := vhlib.RandBytes(rng, 1+rng.Intn(60))
+				c := deflateChunk(d, lvl)
+				at := []int{0, len(c) - 5, len(c) - 5, 1, 3, rng.Intn(len(c))}[rng.Intn(6)]
+				if at < 0 {
+					at = 0
+				}
+				c = append([]byte{}, c...)
+				if rng.Intn(2) == 0 {
+					c[at] ^= byte(1) << uint(rng.Intn(3))
+				} else {
+					c[at] = byte(rng.Intn(8))
+				}
+				cs[j] = xchunk{Comp: c, CSize: int64(len(c)), RSize: int64(len(d))}
+			case 33: // a record that declares raw bytes for NO compressed bytes
+				kind = "record-raw-without-compressed"
+				at := rng.Intn(len(cs) + 1)
+				lc := xchunk{Comp: nil, CSize: 0, RSize: int64(1 + rng.Intn(300))}
+				cs = append(cs[:at:at], append([]xchunk{lc}, cs[at:]...)...)
 			case 29, 30: // a complete stream (XFLATE or plain DEFLATE) followed by a complete XFLATE stream
 				kind = "stream-after-stream"
 				var first []byte
